@@ -1638,6 +1638,15 @@ pub fn check(property: &str, tier: &str) -> i32 {
     for (k, (n, d)) in &total.pair_info {
         report.info.push(format!("information only: {k} [{n} executions] e.g. {d}"));
     }
+    // the worker's connection sequence around the handshake (retries after transient failures)
+    let machinery = crate::auth_retry::run(tier, &mut report);
+    if !machinery.is_empty() {
+        for m in &machinery {
+            eprintln!("machinery: {m}");
+        }
+        let rc = report.finish();
+        return if rc == 1 { 1 } else { 2 };
+    }
     report.finish()
 }
 
